@@ -1,0 +1,194 @@
+//go:build verif
+
+/*
+Copyright 2026 The Volcano Authors.
+
+Licensed under the Apache License, Version 2.0 (the "License");
+you may not use this file except in compliance with the License.
+You may obtain a copy of the License at
+
+    http://www.apache.org/licenses/LICENSE-2.0
+
+Unless required by applicable law or agreed to in writing, software
+distributed under the License is distributed on an "AS IS" BASIS,
+WITHOUT WARRANTIES OR CONDITIONS OF ANY KIND, either express or implied.
+See the License for the specific language governing permissions and
+limitations under the License.
+*/
+
+// Export of the job controller for an external verification harness.
+// Only adds exported wrappers; compiled only with the build tag `verif`.
+
+package job
+
+import (
+	v1 "k8s.io/api/core/v1"
+	"k8s.io/client-go/informers"
+	"k8s.io/client-go/kubernetes"
+	"k8s.io/client-go/tools/cache"
+	"k8s.io/client-go/tools/record"
+	"k8s.io/client-go/util/workqueue"
+
+	batch "volcano.sh/apis/pkg/apis/batch/v1alpha1"
+	busv1alpha1 "volcano.sh/apis/pkg/apis/bus/v1alpha1"
+	scheduling "volcano.sh/apis/pkg/apis/scheduling/v1beta1"
+	vcclientset "volcano.sh/apis/pkg/client/clientset/versioned"
+	vcinformer "volcano.sh/apis/pkg/client/informers/externalversions"
+
+	"volcano.sh/volcano/pkg/controllers/apis"
+	jobcache "volcano.sh/volcano/pkg/controllers/cache"
+	"volcano.sh/volcano/pkg/controllers/framework"
+	"volcano.sh/volcano/pkg/controllers/job/state"
+)
+
+// VerifJobController is a job controller wired by the real Initialize to the
+// given (fake) clientsets.  Its informers are never started: the harness owns
+// the indexers behind the listers and the job cache, and fills them by hand,
+// so informer lag is an explicit step of a history.
+type VerifJobController struct {
+	cc *jobcontroller
+}
+
+// VerifNewJobController builds the controller with one worker queue; the
+// event recorder is replaced by one that drops events (no goroutines write to
+// the clients behind the harness's back).  maxRequeueNum < 0 means "requeue
+// forever" (handleJobError never terminates the job).
+func VerifNewJobController(kube kubernetes.Interface, vc vcclientset.Interface, maxRequeueNum int) (*VerifJobController, error) {
+	cc := &jobcontroller{}
+	opt := &framework.ControllerOption{
+		KubeClient:              kube,
+		VolcanoClient:           vc,
+		SharedInformerFactory:   informers.NewSharedInformerFactory(kube, 0),
+		VCSharedInformerFactory: vcinformer.NewSharedInformerFactory(vc, 0),
+		WorkerNum:               1,
+		MaxRequeueNum:           maxRequeueNum,
+	}
+	if err := cc.Initialize(opt); err != nil {
+		return nil, err
+	}
+	cc.recorder = &record.FakeRecorder{}
+	return &VerifJobController{cc: cc}, nil
+}
+
+// indexers behind the listers the controller reads through
+func (v *VerifJobController) VerifPodIndexer() cache.Indexer {
+	return v.cc.podInformer.Informer().GetIndexer()
+}
+func (v *VerifJobController) VerifJobIndexer() cache.Indexer {
+	return v.cc.jobInformer.Informer().GetIndexer()
+}
+func (v *VerifJobController) VerifPodGroupIndexer() cache.Indexer {
+	return v.cc.pgInformer.Informer().GetIndexer()
+}
+func (v *VerifJobController) VerifQueueIndexer() cache.Indexer {
+	return v.cc.queueInformer.Informer().GetIndexer()
+}
+func (v *VerifJobController) VerifPriorityClassIndexer() cache.Indexer {
+	return v.cc.pcInformer.Informer().GetIndexer()
+}
+func (v *VerifJobController) VerifPVCIndexer() cache.Indexer {
+	return v.cc.pvcInformer.Informer().GetIndexer()
+}
+
+// VerifCache is the controller's job cache (jobs and their pods as the
+// controller sees them).
+func (v *VerifJobController) VerifCache() jobcache.Cache { return v.cc.cache }
+
+// VerifProcessReq delivers one request through the real processNextReq on a
+// fresh worker queue and reports whether the request was re-queued for retry
+// (i.e. the executed state action returned an error).
+func (v *VerifJobController) VerifProcessReq(req apis.Request) (requeued bool) {
+	q := workqueue.NewTypedRateLimitingQueue(workqueue.DefaultTypedControllerRateLimiter[any]())
+	old := v.cc.queueList[0]
+	v.cc.queueList[0] = q
+	defer func() {
+		v.cc.queueList[0] = old
+		q.ShutDown()
+	}()
+	q.Add(req)
+	v.cc.processNextReq(0)
+	return q.NumRequeues(req) > 0
+}
+
+// VerifApplyPolicies is applyPolicies: the action the controller derives from
+// a request, and its delay in nanoseconds.
+func VerifApplyPolicies(job *batch.Job, req *apis.Request) (busv1alpha1.Action, int64) {
+	d := applyPolicies(job, req)
+	return d.action, int64(d.delay)
+}
+
+// VerifExecute runs state.NewState(jobInfo).Execute for the cached job, with
+// the target GetStateAction derives from the request.
+func (v *VerifJobController) VerifExecute(key string, req apis.Request, action busv1alpha1.Action) error {
+	jobInfo, err := v.cc.cache.Get(key)
+	if err != nil {
+		return err
+	}
+	d := &delayAction{jobKey: key, taskName: req.TaskName, podName: req.PodName, partition: req.PartitionID, action: action}
+	return state.NewState(jobInfo).Execute(GetStateAction(d))
+}
+
+func (v *VerifJobController) VerifSyncJob(jobInfo *apis.JobInfo, fn state.UpdateStatusFn) error {
+	return v.cc.syncJob(jobInfo, fn)
+}
+
+func (v *VerifJobController) VerifKillJob(jobInfo *apis.JobInfo, retain state.PhaseMap, fn state.UpdateStatusFn) error {
+	return v.cc.killJob(jobInfo, retain, fn)
+}
+
+func (v *VerifJobController) VerifKillPods(jobInfo *apis.JobInfo, retain state.PhaseMap, target *state.Target, fn state.UpdateStatusFn) error {
+	return v.cc.killPods(jobInfo, retain, target, fn)
+}
+
+func (v *VerifJobController) VerifKillTarget(jobInfo *apis.JobInfo, target state.Target, fn state.UpdateStatusFn) error {
+	return v.cc.killTarget(jobInfo, target, fn)
+}
+
+func (v *VerifJobController) VerifCreateOrUpdatePodGroup(job *batch.Job) error {
+	return v.cc.createOrUpdatePodGroup(job)
+}
+
+func (v *VerifJobController) VerifCalcPGMinResources(job *batch.Job) *v1.ResourceList {
+	return v.cc.calcPGMinResources(job)
+}
+
+func (v *VerifJobController) VerifGetMinTaskMember(task batch.TaskSpec) int32 {
+	return v.cc.getMinTaskMember(task)
+}
+
+func (v *VerifJobController) VerifPodGroupName(job *batch.Job) string {
+	return v.cc.generateRelatedPodGroupName(job)
+}
+
+// VerifCreateJobPod is createJobPod.
+func VerifCreateJobPod(job *batch.Job, template *v1.PodTemplateSpec, ix int, jobForwarding bool, pg *scheduling.PodGroup, ts *batch.TaskSpec) *v1.Pod {
+	return createJobPod(job, template, ix, jobForwarding, pg, ts)
+}
+
+// informer event handlers (they update the job cache and enqueue requests);
+// VerifDrainRequests returns and removes what they enqueued.
+func (v *VerifJobController) VerifAddJob(job *batch.Job) { v.cc.addJob(job) }
+func (v *VerifJobController) VerifUpdateJob(oldJob, newJob *batch.Job) {
+	v.cc.updateJob(oldJob, newJob)
+}
+func (v *VerifJobController) VerifAddPod(pod *v1.Pod)               { v.cc.addPod(pod) }
+func (v *VerifJobController) VerifUpdatePod(oldPod, newPod *v1.Pod) { v.cc.updatePod(oldPod, newPod) }
+func (v *VerifJobController) VerifDeletePod(pod *v1.Pod)            { v.cc.deletePod(pod) }
+func (v *VerifJobController) VerifUpdatePodGroup(oldPG, newPG *scheduling.PodGroup) {
+	v.cc.updatePodGroup(oldPG, newPG)
+}
+
+func (v *VerifJobController) VerifDrainRequests() []apis.Request {
+	var out []apis.Request
+	q := v.cc.queueList[0]
+	for q.Len() > 0 {
+		obj, shutdown := q.Get()
+		if shutdown {
+			break
+		}
+		q.Done(obj)
+		q.Forget(obj)
+		out = append(out, obj.(apis.Request))
+	}
+	return out
+}
